@@ -13,7 +13,7 @@ SHARDS = {"quick": 16, "thorough": 16}
 RULE = (
     "Hypothesis generates programs as in C01 (every constant kind: int and str set literals, tuples, nested code, defaults; cycles; aliases/wrappers; 1-2 modules) and, per program, "
     "k configurations (4 quick / 8 thorough) = PYTHONHASHSEED value x permutation of the definition order (aliases/wrappers stay after their targets, a function after the function its parameter default names; optionally grouped so that all plain helpers / all variables / all memento functions come last) x permutation of the order in which "
-    "versions are first queried; every configuration is a real interpreter start. For half of the cases a module variable is additionally re-bound or mutated: configuration 0 imports the text that already contains the new value, every other configuration imports the original text and asks every function for its version once (warm in-process version cache), applies the change in-process and only then performs its recorded queries in its own order. Oracle (metamorphic): the map function -> version is identical in all configurations; and process A "
+    "versions are first queried; every configuration is a real interpreter start. For two thirds of the cases a module variable is additionally re-bound or mutated in place: configuration 0 imports the text that already contains the new value, every other configuration imports the original text and asks every function for its version once (warm in-process version cache), applies the change in-process and only then performs its recorded queries in its own order. Oracle (metamorphic): the map function -> version is identical in all configurations; and process A "
     "calls all automatically-versioned functions against an empty store, then process B (different hash seed, different definition and query order) repeats the calls on that store: "
     "B executes no function body and returns the same values. Non-trivial = the program has an order-sensitive ingredient (set literal with >= 2 members, >= 2 dependencies, >= 2 tracked "
     "variables or a cycle) and the configurations differ in hash seed and order; distinct by program."
@@ -40,6 +40,10 @@ def _rebound(case):
         return None, []
     p2, info = progs.apply_edit(case["program"], rb, "r")
     if not info["applied"]:
+        return None, []
+    if any(dd["k"] == "mut" and dd["target"] == info.get("target") for dd in p2["defs"]):
+        # the module text itself appends to this variable at import time: "new value in the text, then append" and
+        # "append, then change in-process" are different lists, i.e. different programs - not a case
         return None, []
     # only the variable changes: explicit version strings stay as they are in both deliveries (versions are compared,
     # and every configuration computes with the new value)
@@ -125,7 +129,7 @@ def execute(case, scratch):
             if a["results"] != b["results"]:
                 out.violation("second process returned different values: %r vs %r" % (b["results"], a["results"]), symptom="values-differ")
         feats = progs.features(prog)
-        sensitive = ("inset" in feats) or ("dict-from-set" in feats) or ("fn-default" in feats) or ("version-query-at-import" in feats) or sum(1 for dd in prog["defs"] if dd["k"] == "var") >= 2 or \
+        sensitive = ("inset" in feats) or ("dict-from-set" in feats) or ("fn-default" in feats) or ("version-query-at-import" in feats) or ("in-place-update-at-import" in feats) or sum(1 for dd in prog["defs"] if dd["k"] == "var") >= 2 or \
             any(len(progs.edges(prog, f["name"])[0]) >= 2 for f in progs.fns(prog))
         differ = len({c["seed"] for c in cfgs}) > 1
         out.nontrivial = sensitive and differ
@@ -155,15 +159,16 @@ def strategy(thorough):
                     st.sampled_from(["mixed", "mixed", "mixed", "plain-last", "vars-last", "memento-last"]))
     cfgs = st.lists(cfg, min_size=k, max_size=k).map(
         lambda cs: [dict(c, seed=(c["seed"] if i != 1 or c["seed"] != cs[0]["seed"] else c["seed"] + 1)) for i, c in enumerate(cs)])
-    rebind = st.one_of(st.none(), st.builds(lambda e, k: dict(e, kind=k), progs.edit_strategy(), st.sampled_from(["var", "var", "varmut", "varcopy"])))
+    rebind = st.integers(0, 2).flatmap(lambda i: st.none() if i == 0 else st.builds(
+        lambda e, k: dict(e, kind=k), progs.edit_strategy(), st.sampled_from(["var", "varmut", "varmut", "varcopy"])))
     return st.builds(lambda p, c, rb: {"program": p, "configs": c, "rebind": rb},
-                     progs.program_strategy(max_fns=7 if thorough else 5, allow_hidden=False, allow_fdef=True, allow_dictset=True, allow_query=True), cfgs, rebind)
+                     progs.program_strategy(max_fns=7 if thorough else 5, allow_hidden=False, allow_fdef=True, allow_dictset=True, allow_query=True, allow_mut=True, allow_tuplist=True), cfgs, rebind)
 
 
 def run_shard(ctx):
     stats = core.Stats()
     thorough = ctx.tier == "thorough"
-    core.hyp_search(strategy(thorough), lambda c: execute(c, ctx.scratch), stats, max_examples=60 if thorough else 4,
+    core.hyp_search(strategy(thorough), lambda c: execute(c, ctx.scratch), stats, max_examples=60 if thorough else 5,
                     seed=core.hash64(ctx.seed, ID, ctx.shard), findings=ctx.findings, shrink=thorough,
                     deadline_s=(ctx.deadline - time.time()) if ctx.deadline else None)
     return stats
